@@ -118,7 +118,7 @@ PROPS = {
     "C15": {
         "file": "C15.v",
         "streams": [S("trie", 300, 5000), S("index", 40, 400)],
-        "claim": "Theorems over HttpTrie: for every raw operation stream the path index equals the abstract map normalized-path -> key -> identity, exact and wildcard matching are segment-wise, equivalent spellings coincide, removal by identity ignores stale notifications, pruning leaves no empty branch and never loses a live branch. Tied to /repo by T-trace on the real patternIndex (exported wrapper). The clause about index/cache agreement under interleavings of stores, invalidations and late notifications is decided by deterministic interleaving probes through the split-store hooks (known finding F5: overlapping stores of one key).",
+        "claim": "Part 1, theorems over HttpTrie: for every raw operation stream the path index equals the abstract map normalized-path -> key -> identity, exact and wildcard matching are segment-wise, equivalent spellings (slash runs of any length, leading, trailing) coincide, removal by identity ignores stale notifications, pruning leaves no empty branch and never loses a live branch. Part 2, theorems over IndexLts (store = index step then cache step; notifications delivered asynchronously and removed by identity; Invalidate = snapshot then deletes; Clear = two steps; evictions, rejections, expirations as environment steps; any number of threads, every schedule): under the hypothesis that no two stores of ONE key overlap and no store overlaps a Clear, at every quiescent state index and cache hold the same keys with the same identities; an Invalidate with no request in flight leaves no matching key cached and nothing else touched; the drained state is independent of notification delivery times; rejected and failed stores leave nothing behind. The hypothesis is necessary: overlapping stores of one key are refuted on the model and replayed on the real middleware (known finding F5). Tied to /repo by T-trace on the real patternIndex (trie stream) and on the real middleware through the split-store hooks (index stream: every step replayed by the extracted IndexLts, key sets compared at every flush), plus the late-notification probes (a blocking PathExtractor; 6000 free-running race rounds) and rounds with small caches (evictions) under the index = cache monitor.",
         "note": "Trusted: Coq kernel, extraction, driver, harness, httpcache hooks. The index-vs-cache interleaving clause is partial (probes + known finding), not a theorem yet.",
         "assumptions": ["keys and identities are integers in the model; Go map iteration order is abstracted by comparing sorted answers"],
     },
